@@ -115,6 +115,9 @@ pub struct Case {
     /// delay; only for transactions without channel outputs
     #[serde(default)]
     pub storm: Option<(u8, u8)>,
+    /// the signer is restarted from the store before this repeat (0 = never)
+    #[serde(default)]
+    pub restart_before: u8,
 }
 
 fn in_strat() -> impl Strategy<Value = InGen> {
@@ -207,11 +210,12 @@ impl Prop for C08 {
             prop::bool::weighted(0.3),
             prop::bool::weighted(0.03),
             prop_oneof![9 => Just(None), 1 => (1u8..4, 24u8..32).prop_map(Some)],
+            prop_oneof![3 => Just(0u8), 1 => Just(1u8), 1 => Just(2u8)],
         )
-            .prop_map(|(version, inputs, outputs, chans, fee, fee_velocity_sat, max_feerate, repeats, via_approver, big_tx, storm)| {
+            .prop_map(|(version, inputs, outputs, chans, fee, fee_velocity_sat, max_feerate, repeats, via_approver, big_tx, storm, restart_before)| {
                 // a storm is only interesting with a finite fee velocity limit
                 let fee_velocity_sat = if storm.is_some() { fee_velocity_sat.or(Some(2500)) } else { fee_velocity_sat };
-                Case { version, inputs, outputs, chans, fee, fee_velocity_sat, max_feerate, repeats, via_approver, big_tx, storm }
+                Case { version, inputs, outputs, chans, fee, fee_velocity_sat, max_feerate, repeats, via_approver, big_tx, storm, restart_before }
             })
             .boxed()
     }
@@ -261,6 +265,13 @@ impl Prop for C08 {
             st.class("retry_storm");
         }
         for rep in 0..total_reps {
+            if case.restart_before != 0 && rep == case.restart_before {
+                let r = w.restart();
+                st.class(format!("restart:{}", r.tag()));
+                if !r.is_ok() {
+                    return Ok(());
+                }
+            }
             if let Some((gap_after, _)) = storm {
                 if rep == gap_after.min(case.repeats) {
                     let t = w.clock.now().as_secs() + 3900;
